@@ -198,6 +198,29 @@ func F2(thorough bool) []*Program {
 				fn("NewT0", []string{"I0", "*T2"}, []string{"*T0"}, false),
 			}}}})
 	}
+	// Bind written around Async
+	add(&Program{Desc: "bind-outside-async", Types: typeNames(3), Ifaces: map[string]string{"I0": "T1"}, Decls: []Decl{{
+		Name: "InitP", Request: "*T0", Provs: []Prov{
+			func() Prov { p := fn("NewT1", nil, []string{"*T1"}, false); p.Bind = "I0"; p.BindOutside = true; return p }(),
+			fn("NewT2", nil, []string{"*T2"}, false),
+			fn("NewT0", []string{"I0", "*T2"}, []string{"*T0"}, false),
+		}}}})
+	// error result spelled through an alias of error
+	add(&Program{Desc: "error-alias", Types: typeNames(3), Decls: []Decl{{
+		Name: "InitP", Request: "*T0", Provs: []Prov{
+			func() Prov { p := fn("NewT2", nil, []string{"*T2"}, true); p.ErrAlias = true; return p }(),
+			fn("NewT1", []string{"*T2"}, []string{"*T1"}, false),
+			fn("NewT0", []string{"*T1", "*T2"}, []string{"*T0"}, false),
+		}}}})
+	// a consumer taking two results of one provider next to a deeper dependency
+	add(&Program{Desc: "multi-result plus chain", Types: typeNames(6), Decls: []Decl{{
+		Name: "InitP", Request: "*T0", Provs: []Prov{
+			fn("NewT1T2", nil, []string{"*T1", "*T2"}, false),
+			fn("NewT5", nil, []string{"*T5"}, false),
+			fn("NewT4", []string{"*T5"}, []string{"*T4"}, false),
+			fn("NewT3", nil, []string{"*T3"}, false),
+			fn("NewT0", []string{"*T1", "*T2", "*T4", "*T3"}, []string{"*T0"}, false),
+		}}}})
 	// Struct expansion: S0{F0 *T1; F1 *T2}
 	for _, e := range []bool{false, true} {
 		add(&Program{Desc: fmt.Sprintf("struct err=%v", e), Types: typeNames(4), Structs: map[string][]string{"S0": {"F0 *T1", "F1 *T2", "hidden int"}}, Decls: []Decl{{
@@ -439,6 +462,12 @@ func FN() []*Program {
 		named("InitB", "B", "B:A,Err0", "A:!e", "Err0:!e"))
 	add("package-level variable named like a generated variable", []string{"Config", "App"}, []string{"var config = 1", "var app0, configCh = 2, 3"}, nil,
 		named("InitApp", "App", "App:Config", "Config:!a"))
+	add("type Float3 needed by four injectors (float32 is predeclared)", []string{"Float3", "A", "B", "C", "D"}, nil, [][]int{{0, 1}, {2, 3}},
+		named("InitA", "A", "A:Float3", "Float3:"), named("InitB", "B", "B:Float3", "Float3:"),
+		named("InitC", "C", "C:Float3", "Float3:"), named("InitD", "D", "D:Float3", "Float3:"))
+	add("type Int6 needed by six injectors (int64 is predeclared)", []string{"Int6", "A", "B", "C", "D", "E", "F"}, nil, nil,
+		named("InitA", "A", "A:Int6", "Int6:"), named("InitB", "B", "B:Int6", "Int6:"), named("InitC", "C", "C:Int6", "Int6:"),
+		named("InitD", "D", "D:Int6", "Int6:"), named("InitE", "E", "E:Int6", "Int6:"), named("InitF", "F", "F:Int6", "Int6:"))
 	add("type named like a predeclared identifier suffix", []string{"Int", "String", "App"}, nil, nil,
 		named("InitApp", "App", "App:Int,String", "Int:", "String:"),
 		named("InitApp2", "App", "App:Int,String", "Int:", "String:"))
@@ -608,6 +637,11 @@ func FH() []*Program {
 		Decls: []Decl{
 			{Name: "InitQ", Request: "*T1", Provs: []Prov{fn("NewT1", []string{"*bytes.Buffer"}, []string{"*T1"}, false)}},
 			{Name: "InitP", Request: "*T0", Provs: []Prov{fn("NewT0", []string{"*strings.Builder", "*bytes.Buffer"}, []string{"*T0"}, true)}}}})
+	out = append(out, &Program{Family: "FH", Desc: "two files needing the same external type", Types: typeNames(2), Files: [][]int{{0}, {1}},
+		ExtraImports: []string{`"strings"`},
+		Decls: []Decl{
+			{Name: "InitP", Request: "*T0", Provs: []Prov{fn("NewT0", []string{"*strings.Builder"}, []string{"*T0"}, false)}},
+			{Name: "InitQ", Request: "*T1", Provs: []Prov{func() Prov { p := fn("NewT1", []string{"*strings.Builder"}, []string{"*T1"}, false); p.Async = true; return p }()}}}})
 	// two files of one package, each with an async injector and different imports
 	out = append(out, &Program{Family: "FH", Desc: "two files, async injectors", Types: typeNames(3), Files: [][]int{{0}, {1}}, Decls: []Decl{
 		coreDecl("InitP", [][]int{{1, 2}, {}, {}}, 0b110, 0b010, -1, 0),
